@@ -281,8 +281,8 @@ Definition mon_C05 (rs : list row) : verdict :=
 (* a stream write to a frozen host that was still blocked after every deadline the code can have set (kind 18
    rows: node, milliseconds): the goroutine that wrote — the periodic push/pull, or the probe's TCP fallback —
    is stuck for good, so that node's anti-entropy (or failure detector) has stopped *)
-Definition mon_stuck (code : N) (rs : list row) : verdict :=
-  first_some (fun r => mkV code (Z.to_N (rget 2 r))) (of_kind 18 rs).
+Definition mon_stuck (kind : Z) (code : N) (rs : list row) : verdict :=
+  first_some (fun r => mkV code (Z.to_N (rget 2 r))) (of_kind kind rs).
 
 (* ---------- entry ---------- *)
 (* sel: 0 everything; 3 / 4 / 5 only that property's monitors (plus the correspondence) *)
@@ -294,13 +294,16 @@ Definition check_case (sel : Z) (cs : list int * (list (list int) * list (list i
       if negb (forallb (smin_ok c) (c_nodes c)) then mkV 2 0
       else
         let on (p : Z) := Z.eqb sel 0 || Z.eqb sel p in
-        if Z.eqb (c_kind c) 1 then
+        if Z.eqb (c_kind c) 3 then
+          (* contention in real time: a worker that never came back (kind 19 row) *)
+          (if on 4 then mon_stuck 19 546 rs else vok)
+        else if Z.eqb (c_kind c) 1 then
           (* the property monitors first: a violation is reported as such even when the probe records
              no longer match the cursor model *)
           vthen (if on 4 then mon_C04 rs else vok)
           (vthen (if on 3 then mon_C03_detect c rs else vok)
           (vthen (if on 3 then mon_C03_sched c rs else vok)
-          (vthen (if on 3 then mon_stuck 536 rs else vok)
+          (vthen (if on 3 then mon_stuck 18 536 rs else vok)
                  (corr_sched c rs))))
-        else if on 5 then vthen (mon_stuck 523 rs) (vthen (mon_below_owner rs) (mon_C05 rs)) else vok
+        else if on 5 then vthen (mon_stuck 18 523 rs) (vthen (mon_below_owner rs) (mon_C05 rs)) else vok
   end.
